@@ -28,6 +28,11 @@ func main() {
 		runChild(*child, flag.Args())
 		return
 	}
+	if v := os.Getenv("VERIF_MAX_PER_SIG"); v != "" {
+		if n, err := strconv.Atoi(v); err == nil {
+			maxPerSig = n
+		}
+	}
 	seed := int64(1)
 	if s := os.Getenv("VERIF_SEED"); s != "" {
 		if v, err := strconv.ParseInt(s, 10, 64); err == nil {
